@@ -251,13 +251,51 @@ def covered_unreachables(tc):
     return out
 
 
-def panic_rule(ctx):
-    ob = ctx.ob
-    obs = []
-    table = json.load(open(os.path.join(REFS, "panic_sites.json")))["sites"]
-    reviewed = {(r["crate"], r["fn"], r["kind"]): r for r in table}
+def boundary_safe_slices(tc):
+    """{fn qual: n} - string slices `s[..n]` / `s[n..]` whose bound is a local taken from `s.find(..)` / `s.rfind(..)` / `s.len()`
+    (optionally `.unwrap_or(s.len())`): such an index is in range and on a character boundary of `s` by construction"""
+    out = {}
+    for f in tc.fns:
+        if not f.body:
+            continue
+        locs = {}
+        for n in sir.walk(f.body):
+            if n.get("k") == "local" and n["pat"].get("k") == "p_ident" and n.get("init") is not None:
+                locs.setdefault(n["pat"]["name"], n["init"])
+
+        def origin_ok(b, base):
+            if b is None:
+                return True
+            b = sir.strip_ref(b)
+            if b.get("k") == "path" and len(b["segs"]) == 1 and b["segs"][0] in locs:
+                e = locs[b["segs"][0]]
+            else:
+                e = b
+            # strip `.unwrap_or(base.len())`
+            if e.get("k") == "mcall" and e["m"] in ("unwrap_or", "unwrap_or_else") and e["args"]:
+                dflt = sir.expr_str(e["args"][0]).replace(" ", "")
+                if dflt not in ("%s.len()" % base, "||%s.len()" % base, "0"):
+                    return False
+                e = e["recv"]
+            if e.get("k") == "mcall" and e["m"] in ("find", "rfind", "len") and sir.expr_str(sir.strip_ref(e["recv"])).replace(" ", "") == base:
+                return True
+            return False
+        k = 0
+        for n in sir.walk(f.body):
+            if n.get("k") == "index" and n["idx"].get("k") == "range":
+                base = sir.expr_str(sir.strip_ref(n["base"])).replace(" ", "")
+                fr, to = n["idx"].get("from"), n["idx"].get("to")
+                if (fr is not None or to is not None) and origin_ok(fr, base) and origin_ok(to, base):
+                    k += 1
+        if k:
+            for q in {f.qual, "::".join(list(f.module) + [f.name])}:
+                out[q] = k
+    return out
+
+
+def classified_sites(ctx):
+    """potential panic sites per (crate, function, kind), after the mechanical discharges (covered unreachable arms, boundary-safe slices)"""
     sites = panic_sites(ctx.mir)
-    total = 0
     cov = {}
     for idx_, cname in ((ctx.tc, "template"), (ctx.sc, "stylesheet")):
         for q, n_ in covered_unreachables(idx_).items():
@@ -269,11 +307,32 @@ def panic_rule(ctx):
             sites[(crate, root, cat)] = sites[(crate, root, cat)][n_:]
             if not sites[(crate, root, cat)]:
                 del sites[(crate, root, cat)]
+    for idx_, cname in ((ctx.tc, "template"), (ctx.sc, "stylesheet")):
+        for q, n_ in boundary_safe_slices(idx_).items():
+            for cat in ("index:str", "index:String"):
+                key_ = (cname, q, cat)
+                if key_ in sites and n_ > 0:
+                    take = min(n_, len(sites[key_]))
+                    sites[(cname, q, "index:boundary")] = sites.get((cname, q, "index:boundary"), []) + sites[key_][:take]
+                    sites[key_] = sites[key_][take:]
+                    n_ -= take
+                    if not sites[key_]:
+                        del sites[key_]
+    return sites
+
+
+def panic_rule(ctx):
+    ob = ctx.ob
+    obs = []
+    table = json.load(open(os.path.join(REFS, "panic_sites.json")))["sites"]
+    reviewed = {(r["crate"], r["fn"], r["kind"]): r for r in table}
+    sites = classified_sites(ctx)
+    total = 0
     # A site that moves between functions (a helper is extracted or inlined) is not a new way to panic: the reviewed table is
     # compared per (crate, kind) over the whole crate first, and per function only to say where a surplus appeared.
     now_tot, rev_tot = {}, {}
     for (crate, root, cat), spans in sites.items():
-        if cat not in ("unwrap:fmt", "panic:covered"):
+        if cat not in ("unwrap:fmt", "panic:covered", "index:boundary"):
             now_tot[(crate, cat)] = now_tot.get((crate, cat), 0) + len(spans)
     for r in table:
         rev_tot[(r["crate"], r["kind"])] = rev_tot.get((r["crate"], r["kind"]), 0) + r["count"]
@@ -285,6 +344,9 @@ def panic_rule(ctx):
     for (crate, root, cat), spans in sorted(sites.items()):
         total += len(spans)
         key = "C01.panic/%s/%s/%s" % (crate, root, cat)
+        if cat == "index:boundary":
+            obs.append(ob(key, True, spans[0], "%d string slice(s) bounded by `find`/`rfind`/`len` of the same string: in range and on a character boundary by construction" % len(spans)))
+            continue
         if cat == "panic:covered":
             obs.append(ob(key, True, spans[0], "%d `_ => unreachable!()` arm(s) of an inner match whose other arms list every variant the enclosing arm admits (cannot be taken)" % len(spans)))
             continue
